@@ -115,6 +115,13 @@ def probe():
                 # old objects through locals after it has replaced them)
                 if pool is not None and (self is pool.__dict__.get("idle") or self is pool.__dict__.get("busy")):
                     rec.access()
+                if m == "pop" and not a and not k and set.__len__(self) > 1:
+                    # any element is a legitimate result of set.pop(); take the oldest worker so that the generated
+                    # tables do not depend on the hash order of this process (the row records which one was taken)
+                    order = {id(w): i for i, w in enumerate(rec.started)}
+                    x = min(set.__iter__(self), key=lambda w: order.get(id(w), len(order)))
+                    set.remove(self, x)
+                    return x
                 return real(self, *a, **k)
             return f
         ns[m] = make(m)
